@@ -6,6 +6,7 @@ import (
 	"fmt"
 	"math"
 	"math/big"
+	"runtime"
 	"strings"
 	"sync"
 
@@ -497,7 +498,14 @@ func c12api(r *Rec, replay map[string]interface{}) {
 	}
 	var mu sync.Mutex
 	if replay != nil {
-		c02(r, replay)
+		if fp, _ := replay["fingerprint"].(string); strings.Contains(fp, "parse-cost") {
+			c12parseCost(r)
+		} else {
+			c02(r, replay)
+		}
+		for i := range r.Viol {
+			r.Viol[i].FP = strings.Replace(r.Viol[i].FP, "C02:", "C12:api-", 1)
+		}
 		return
 	}
 	c02bytes(r, &mu, validators)
@@ -530,9 +538,81 @@ func c12api(r *Rec, replay map[string]interface{}) {
 			}
 		}
 	}
+	c12parseCost(r)
 	r.Sample(map[string]interface{}{"case": "truncation of a valid 4-member proof to 17 bytes", "expect": "error, no panic"})
 	// relabel for C12
 	for i := range r.Viol {
 		r.Viol[i].FP = strings.Replace(r.Viol[i].FP, "C02:", "C12:api-", 1)
+	}
+}
+
+// c12parseCost: one (unauthenticated) message or proof must not cost more than time and memory proportional to its
+// size: the bytes allocated while parsing content that carries N array elements are measured for N = 1000 and 4000
+// (deterministic: single goroutine, allocation counters, no clock); growth beyond 8x for 4x the input is superlinear.
+func c12parseCost(r *Rec) {
+	alloc := func(f func()) uint64 {
+		var a, b runtime.MemStats
+		runtime.GC()
+		runtime.ReadMemStats(&a)
+		f()
+		runtime.ReadMemStats(&b)
+		return b.TotalAlloc - a.TotalAlloc
+	}
+	nv := func(n int) []byte {
+		hdr := &protocol.NewViewHeaderBuilder{MessageType: protocol.LEAN_HELIX_NEW_VIEW, InstanceId: kit.Instance, BlockHeight: 1, View: 1}
+		for i := 0; i < n; i++ {
+			hdr.ViewChangeConfirmations = append(hdr.ViewChangeConfirmations, &protocol.ViewChangeMessageContentBuilder{})
+		}
+		c := &protocol.LeanhelixContentBuilder{Message: protocol.LEANHELIX_CONTENT_MESSAGE_NEW_VIEW_MESSAGE, NewViewMessage: &protocol.NewViewMessageContentBuilder{SignedHeader: hdr}}
+		return c.Build().Raw()
+	}
+	vc := func(n int) []byte {
+		pr := &protocol.PreparedProofBuilder{}
+		for i := 0; i < n; i++ {
+			pr.PrepareSenders = append(pr.PrepareSenders, &protocol.SenderSignatureBuilder{})
+		}
+		hdr := &protocol.ViewChangeHeaderBuilder{MessageType: protocol.LEAN_HELIX_VIEW_CHANGE, InstanceId: kit.Instance, BlockHeight: 1, View: 1, PreparedProof: pr}
+		c := &protocol.LeanhelixContentBuilder{Message: protocol.LEANHELIX_CONTENT_MESSAGE_VIEW_CHANGE_MESSAGE, ViewChangeMessage: &protocol.ViewChangeMessageContentBuilder{SignedHeader: hdr}}
+		return c.Build().Raw()
+	}
+	proof := func(n int) []byte {
+		b := &protocol.BlockProofBuilder{BlockRef: &protocol.BlockRefBuilder{MessageType: protocol.LEAN_HELIX_COMMIT, InstanceId: kit.Instance, BlockHeight: c02height, BlockHash: kit.HashOf(kit.NewBlock(c02height, "B"))}}
+		for i := 0; i < n; i++ {
+			b.Nodes = append(b.Nodes, &protocol.SenderSignatureBuilder{})
+		}
+		return b.Build().Raw()
+	}
+	v := c02validator(c02committees[0])
+	cases := []struct {
+		name string
+		run  func(n int) func()
+	}{
+		{"ToConsensusMessage(NEW_VIEW with N empty votes)", func(n int) func() {
+			c := nv(n)
+			return func() { interfaces.ToConsensusMessage(&interfaces.ConsensusRawMessage{Content: c}) }
+		}},
+		{"ToConsensusMessage(VIEW_CHANGE whose proof lists N empty PREPARE senders)", func(n int) func() {
+			c := vc(n)
+			return func() { interfaces.ToConsensusMessage(&interfaces.ConsensusRawMessage{Content: c}) }
+		}},
+		{"ValidateBlockConsensus + GetMemberIdsFromBlockProof(proof with N empty signers)", func(n int) func() {
+			p := proof(n)
+			return func() {
+				v.W.ValidateBlockConsensus(context.Background(), kit.NewBlock(c02height, "B"), p, kit.NewBlock(c02height-1, "prev"), nil, false)
+				lh.GetMemberIdsFromBlockProof(p)
+			}
+		}},
+	}
+	for _, c := range cases {
+		var small, large uint64
+		if p := guard(func() { small = alloc(c.run(1000)); large = alloc(c.run(4000)) }); p != "" {
+			r.Bad("C02:validate-panics", c.name+" panics: "+p, map[string]interface{}{"case": c.name})
+			continue
+		}
+		r.Case("parse-cost/" + c.name)
+		r.Evals += 2
+		if small > 0 && large > 8*small {
+			r.Bad("C02:superlinear-parse-cost", fmt.Sprintf("%s: %d bytes allocated for N=1000, %d for N=4000 (x%.1f for 4x the input): the cost of one message grows faster than its size", c.name, small, large, float64(large)/float64(small)), map[string]interface{}{"case": c.name})
+		}
 	}
 }
